@@ -86,7 +86,9 @@ type Stats struct {
 	Violations   []*Violation
 	violSeen     map[string]int
 	Samples      []string
+	Guided       [][]replayVal // solver-produced inputs of completed paths, replayed natively for the differential validation
 	Validated    int
+	ValidatedFull int // of those, traces that ran the harness to its end (not cut at an assumption)
 	IfConv       int
 }
 
@@ -575,6 +577,22 @@ func (ex *Explorer) runOne(it workItem, run func()) {
 	if len(st.Samples) < 6 && end.kind == "done" {
 		st.Samples = append(st.Samples, ex.describePath())
 	}
+	if end.kind == "done" && ex.fixed == nil && len(st.Guided) < 10 && st.PathsDone&(st.PathsDone-1) == 0 {
+		var g []replayVal
+		for _, r := range ex.path.nondet {
+			if r.Internal {
+				continue
+			}
+			rv := replayVal{Name: r.Name, Kind: r.Kind}
+			if r.Kind == "sym" {
+				rv.V = ex.path.model.Eval(r.T)
+			} else {
+				rv.V = uint64(r.V)
+			}
+			g = append(g, rv)
+		}
+		st.Guided = append(st.Guided, g)
+	}
 }
 
 func (ex *Explorer) describePath() string {
@@ -646,6 +664,11 @@ func (st *Stats) merge(o *Stats) {
 		st.violSeen[v.ID]++
 		if st.violSeen[v.ID] <= 3 {
 			st.Violations = append(st.Violations, v)
+		}
+	}
+	for _, g := range o.Guided {
+		if len(st.Guided) < 16 {
+			st.Guided = append(st.Guided, g)
 		}
 	}
 	for _, s := range o.Samples {
